@@ -112,6 +112,9 @@ pub fn gen_case(rng: &mut Rng) -> NameCase {
         4 => format!("/{ns}/{topic}/"),        // trailing slash
         5 => String::new(),
         6 => format!("{}{}", rng.pick(NON_ASCII), format!("{ns}/{topic}")), // multi-byte first character
+        // blanks around an otherwise well-formed string (ASCII and Unicode white space)
+        7 => format!("{}/{ns}/{topic}", rng.pick(&[' ', '\n', '\t', '\u{a0}', '\u{2003}'])),
+        8 => format!("/{ns}/{topic}{}", rng.pick(&[' ', '\n', '\t', '\r', '\u{a0}', '\u{2003}'])),
         _ => format!("/{ns}/{topic}"),
     };
     NameCase { string, ns, topic }
@@ -274,6 +277,24 @@ async fn scenario(world: Rc<World>, sc: NamesScript) -> AResult<(Vec<CaseReport>
                 reports[i].lib.push(lib_open(&client, gl, phase * 2 + role, c.string.clone()).await);
             }
         }
+        // the same violating names again on the same server, in a role of the *other* messaging
+        // pattern: a refused registration has created nothing, so the answer is the same refusal
+        // (not a complaint about the kind of a topic that was never to exist)
+        for c in sc.cases.iter() {
+            if !(c.ns.is_ascii() && c.topic.is_ascii()) || pair_valid(&c.ns, &c.topic) {
+                continue;
+            }
+            let topic = TopicName::_create_unchecked(&c.ns, &c.topic);
+            let f = if phase == 0 { Frame::RegisterRequestor(RequestorPayload { topic }) } else { Frame::RegisterSubscriber(SubscriberPayload { topic, retention_policy: 0, operations: vec![] }) };
+            let first = first_frame(&conn, f).await;
+            let first = match first {
+                First::ErrorThenMore(code, _) => First::Error(code),
+                other => other,
+            };
+            if first != First::Error(INVALID_TOPIC_NAME) {
+                notes.push(format!("CROSS ({:?}, {:?}) violates the rule and was refused; registered again in a role of the other messaging pattern it was answered {first:?} instead of Error{{INVALID_TOPIC_NAME}}", c.ns.chars().take(24).collect::<String>(), c.topic.chars().take(24).collect::<String>()));
+            }
+        }
         // a violating name whose registration frame (just) fits into the frame limit
         if let Some(slack) = sc.giant_slack {
             const MAX: usize = 1_048_576;
@@ -372,6 +393,9 @@ pub fn execute(prop: &str, sc: &NamesScript, opts: &ExecOpts) -> Outcome {
                     for n in notes {
                         if n.starts_with("ISOLATION") {
                             out.violate(prop, "names-share-traffic", "isolation", n.clone());
+                        }
+                        if n.starts_with("CROSS") {
+                            out.violate(prop, "invalid-name-not-refused-by-server", "server:second-registration-other-pattern", n.clone());
                         }
                         if n.starts_with("GIANT") {
                             out.violate(prop, "invalid-name-not-refused-by-server", "server:giant-name", n.clone());
